@@ -49,6 +49,10 @@ ASSUMPTIONS = [
     "not sample it above 33)",
     "the correspondence carries the MODEL state through the history (Cases/CmpC13.v hist_ok): the trace of every call is "
     "replayed from the values the model has reached, never from the centres read back from the objects",
+    "leaving through a corner: theorem C13_fr_last_step_corner (a last step past both borders ends exactly on the corner) "
+    "is about the unclamped target recomputed in exact arithmetic from the recorded displacement and norm; the exit stream "
+    "is generated so that such steps happen (counted in coverage.steps_past_the_die from the recorded trace in binary64), "
+    "the oracle stays 'every returned centre in [0,W]x[0,H]' and the replay stays the model's step on the recorded forces",
 ]
 
 KAPPAS = [i / 10 for i in range(4, 16)]
@@ -200,6 +204,174 @@ def gen_tie_case(rng):
     mode = rng.choice(["algo", "algo", "layout"])
     return {"mode": mode, "decimal": True, "W": W, "H": H, "mods": mods, "nets": nets, "kappa": rng.choice(KAPPAS),
             "max_iter": rng.choice([0, 0, 1, 2]), "style": rng.choice(["pos", "kw"]), "ints": rng.random() < 0.5}
+
+
+HEAVY = [10, 30, 100, 100, 300, 1000]
+DIRS = [(F(3, 5), F(4, 5)), (F(5, 13), F(12, 13)), (F(8, 17), F(15, 17)), (F(7, 25), F(24, 25)), (F(5, 7), F(5, 7)),
+        (F(20, 29), F(21, 29))]
+# the LAST iteration is the one nothing repairs: its temperature is t0 * 2 / (max_iter + 1)
+EXIT_ITERS = [1, 1, 2, 3, 1, 2, 3, 1, 5, 2, 1, 8, 3, 4, 1, 2]
+# where the module is driven to: each of the four corners three times as often as each of the four borders
+EXIT_SITES = [(0, 0), (1, 0), (0, 1), (1, 1), (0, None), (1, 1), (0, 1), (None, 0), (1, 0), (0, 0), (1, 1), (1, None),
+              (0, 1), (0, 0), (1, 0), (None, 1)]
+
+
+def gen_exit_case(rng, idx):
+    """a module driven OUT of the die in the last iteration - through a corner (both coordinates overshoot in the same
+    step) or through a border (one does): within one last-iteration step of the site, and
+      pull   heavy nets (weights 10 .. 1000) to anchors on the site: a fixed terminal exactly on the corner / on the two
+             borders next to it / a movable terminal or module there; the movers are zero-area terminals (no repulsion at
+             all) or small soft modules
+      push   big soft modules almost on top of each other next to the site (the repulsion of the inner one throws the
+             outer one out; long thin dies: the step is a tenth of the LONG side)
+    max_iter 1, 2, 3 (a few 4, 5, 8), every spring constant incl. 0.01 and 10; 1 in 12 force_algorithm, 1 in 7 the call twice."""
+    decimal = rng.random() < 0.25
+    shape = rng.choice(["square", "wide", "tall", "any", "any"])
+    if decimal:
+        W = F(rng.randrange(20, 200), 10)
+        H = W if shape == "square" else F(rng.randrange(20, 200), 10)
+    else:
+        W = q(rng, 2, 48, 4)
+        H = W if shape == "square" else q(rng, 2, 48, 4)
+    if shape == "wide":
+        W, H = max(W, H) , max(F(1), min(W, H) / rng.choice([2, 4]))
+    elif shape == "tall":
+        W, H = max(F(1), min(W, H) / rng.choice([2, 4])), max(W, H)
+    variant = "push" if rng.random() < 0.25 else "pull"
+    max_iter = EXIT_ITERS[(idx // 12 + idx) % len(EXIT_ITERS)] if variant == "pull" else rng.choice([1, 1, 1, 1, 2, 3])
+    sx, sy = EXIT_SITES[idx % len(EXIT_SITES)]
+    corner = sx is not None and sy is not None
+    t_last = max(W, H) / 10 * 2 / (max_iter + 1)
+    den = 10 if decimal else 8
+    while t_last * den < 2:
+        den *= 10 if decimal else 8
+
+    def grid(lo, hi):
+        return F(rng.randrange(int(lo * den), int(hi * den) + 1), den)
+
+    # the site: a corner, or a point of a border away from the corners
+    cx = sx * W if sx is not None else grid(W / 4, 3 * W / 4)
+    cy = sy * H if sy is not None else grid(H / 4, 3 * H / 4)
+    ix = 0 if sx is None else (1 if sx == 0 else -1)        # the inward direction
+    iy = 0 if sy is None else (1 if sy == 0 else -1)
+
+    def away(dx, dy):
+        """the point (dx, dy) inwards from the site (a border site: dx inwards, dy along the border), on the grid"""
+        dx, dy = F(round(dx * den), den), F(round(dy * den), den)
+        if ix and iy:
+            x, y = cx + ix * dx, cy + iy * dy
+        elif ix:
+            x, y = cx + ix * dx, cy + rng.choice([-1, 1]) * dy
+        else:
+            x, y = cx + rng.choice([-1, 1]) * dy, cy + iy * dx
+        return [min(max(x, F(0)), W), min(max(y, F(0)), H)]
+
+    def near(reach, zero_ok=True):
+        """a point within `reach` (per axis) of the site, inside the die"""
+        lo = 0 if zero_ok else F(1, den)
+        return away(grid(lo, max(reach, F(1, den))), grid(lo, max(reach, F(1, den))))
+
+    # distances covered by a module that is pulled with full strength in the first max_iter - 1 / max_iter iterations
+    t0 = max(W, H) / 10
+    lo_d = sum(t0 * (1 - F(i, max_iter + 1)) for i in range(max_iter - 1))
+    hi_d = lo_d + t_last
+
+    def inner():
+        return [grid(W / 4, 3 * W / 4), grid(H / 4, 3 * H / 4)]
+
+    mods, nets = [], []
+    if variant == "pull":
+        how = rng.choice(["on", "on", "on", "on", "on", "beside", "beside", "two", "movable", "soft"]) if corner else \
+            rng.choice(["on", "on", "beside", "movable"])
+        anchors = []
+        if how == "on":
+            anchors.append({"kind": "termfixed", "center": [cx, cy]})
+        elif how == "beside":       # on a border, a little off the site
+            a = [cx, cy]
+            if corner:
+                k = rng.choice([0, 1])
+                a[k] = a[k] + (ix, iy)[k] * grid(0, t_last / 2)
+            else:
+                k = 1 if ix else 0              # along the border
+                a[k] = a[k] + rng.choice([-1, 1]) * grid(0, t_last / 2)
+            a[k] = min(max(a[k], F(0)), (W, H)[k])
+            anchors.append({"kind": "termfixed", "center": a})
+        elif how == "two":          # one on each border next to the corner: the pulls add up diagonally
+            anchors.append({"kind": "termfixed", "center": [min(max(cx + ix * grid(0, t_last), F(0)), W), cy]})
+            anchors.append({"kind": "termfixed", "center": [cx, min(max(cy + iy * grid(0, t_last), F(0)), H)]})
+        elif how == "movable":
+            anchors.append({"kind": "term", "center": [cx, cy]})
+        else:
+            anchors.append({"kind": "soft", "area": grid(F(1, 4), 2), "center": [cx, cy]})
+        movers = []
+        for _ in range(rng.choice([1, 1, 2, 3])):
+            # a module pulled all the way moves t_0, t_1, .. towards the anchor: it passes the site in the LAST
+            # iteration when it starts between the distances covered in max_iter - 1 and in max_iter iterations
+            r = rng.random()
+            dist = lo_d + (hi_d - lo_d) * F(rng.randrange(1, 16), 16) if r < 0.8 else hi_d * F(rng.randrange(0, 21), 16)
+            a, b = rng.choice(DIRS) if r < 0.9 else (1, 0)
+            if rng.random() < 0.5:
+                a, b = b, a
+            c = away(dist * a, dist * b)
+            if rng.random() < 0.7:
+                movers.append({"kind": "term", "center": c})
+            else:
+                movers.append({"kind": "soft", "area": grid(F(1, den), 1) + F(1, den), "center": c})
+        filler = [{"kind": "soft", "area": grid(F(1, 4), max(F(1, 2), W * H / 8)), "center": inner()}]
+        if rng.random() < 0.4:
+            filler.append({"kind": rng.choice(["soft", "term", "termnoc"]), "area": grid(F(1, 4), 2), "center": inner()})
+        mods = anchors + movers + filler
+        rng.shuffle(mods)
+        for i, m in enumerate(mods):
+            m["name"] = f"M{i}"
+            if m["kind"] != "soft":
+                m.pop("area", None)
+            if m["kind"] == "termnoc":
+                m.pop("center", None)
+        an, mv, fl = [m["name"] for m in anchors], [m["name"] for m in movers], [m["name"] for m in filler]
+        if rng.random() < 0.3:      # one heavy net of everything at the site
+            nets.append({"mods": an + mv, "w": float(rng.choice(HEAVY))})
+        else:
+            for m in mv:
+                for a in (an if rng.random() < 0.7 else an[:1]):
+                    nets.append({"mods": [a, m] if rng.random() < 0.5 else [m, a], "w": float(rng.choice(HEAVY))})
+        if rng.random() < 0.5:      # and a light one to the inside
+            nets.append({"mods": [rng.choice(mv), rng.choice(fl)], "w": float(rng.choice(WEIGHTS))})
+    else:
+        n = rng.choice([2, 2, 3])
+        while t_last * den < 16:
+            den *= 10 if decimal else 8
+        # the outer module well inside the last step (per axis) but several times further from the borders than from
+        # the inner module behind it (the borders repel like modules do: with k^2 / distance)
+        e = max(F(1, den), F(round(t_last * den / rng.choice([16, 32, 64])), den))
+        reach = max(4 * e, t_last * rng.choice([F(1, 4), F(1, 2), F(1, 2), F(5, 8), 1]))
+        first = away(grid(3 * e, reach), grid(3 * e, reach))
+        amax = max(F(1), W * H / 4)
+        mods.append({"kind": "soft", "area": grid(amax / 8, amax), "center": first})
+        for j in range(1, n):
+            c = [first[0] + ix * e * rng.choice([0, 1, 1, 1, 2]), first[1] + iy * e * rng.choice([0, 1, 1, 1, 2])]
+            if j == 2 and rng.random() < 0.5:
+                c = list(first)                 # exactly coincident: no force between these two
+            c = [min(max(c[0], F(0)), W), min(max(c[1], F(0)), H)]
+            mods.append({"kind": "soft", "area": grid(amax / 8, amax), "center": c})
+        if rng.random() < 0.3:
+            mods.append({"kind": "term", "center": near(reach)})
+        rng.shuffle(mods)
+        for i, m in enumerate(mods):
+            m["name"] = f"M{i}"
+        if rng.random() < 0.3:
+            nets.append({"mods": [m["name"] for m in rng.sample(mods, 2)], "w": float(rng.choice(WEIGHTS))})
+    mode = "algo" if rng.random() < 0.08 else "layout"
+    case = {"mode": mode, "decimal": decimal, "W": W, "H": H, "mods": mods, "nets": nets,
+            "kappa": rng.choice(KAPPAS + [0.01, 0.01, 10.0, 10.0, 0.4, 1.5, 1.0, 1.0]),
+            "max_iter": max_iter if mode == "layout" else min(max_iter, 3),
+            "style": rng.choice(["pos", "pos", "kw"]), "ints": rng.random() < 0.3}
+    case = normalise(case)
+    if rng.random() < 0.15:
+        case["hist"] = case["hist"] + [dict(case["hist"][0])]
+    case["stream"] = "exit"
+    case["tag"] = f"{variant}/{how if variant == 'pull' else len(mods)}/{'corner' if corner else 'border'}"
+    return case
 
 
 def num(x, ints=False):
@@ -490,6 +662,34 @@ def own_cost(areas, names, cs, nets):
 
 
 STATS = {"calls": 0, "rebuilt_twin_unavailable": 0, "caller_steps": 0, "caller_steps_raised": 0}
+EXITS = {}
+
+
+def count_exits(case, o):
+    """how often the generated forces really carry a movable module past the die in the step of an iteration, per
+    stream: [runs, runs whose LAST iteration has a step past two borders at once (through a corner), past one border,
+    runs with a corner step in any iteration].  Evidence only (recomputed from the recorded trace in binary64)."""
+    W, H = o["before"]["die"]
+    fx = o["before"]["fx"]
+    row = EXITS.setdefault(case.get("stream", "oracle-only" if case.get("oracle_only") else "general"), [0, 0, 0, 0])
+    for r in o["runs"]:
+        row[0] += 1
+        kinds = []
+        for it in r["iters"]:
+            both = one = False
+            for v, (p, d, n) in enumerate(zip(it["pos"], it["disp"], it["nrm"])):
+                if fx[v]:
+                    continue
+                s = min(n, it["t"])
+                ox = abs(p[0] + d[0] / n * s) > W / 2
+                oy = abs(p[1] + d[1] / n * s) > H / 2
+                both |= ox and oy
+                one |= ox != oy
+            kinds.append((both, one))
+        if kinds:
+            row[1] += kinds[-1][0]
+            row[2] += kinds[-1][1]
+            row[3] += any(b for b, _ in kinds)
 
 
 def reloc_step(case, die, st):
@@ -512,6 +712,7 @@ def reloc_step(case, die, st):
     o = {"kind": st["op"], "before": before, "after": after, "same_object": d2 is die,
          "imgs": nimgs, "files": newfiles, "twins": {}}
     o["runs"], o["costs"] = split_trace(trace)
+    count_exits(case, o)
     for name, tw in twins.items():
         if tw is None:
             o["twins"][name] = None
@@ -802,6 +1003,9 @@ def nontrivial(case):
 
 def dist_key(case):
     sts = steps_of(case)
+    if case.get("stream") == "exit":
+        v, _, site = case["tag"].split("/")
+        return f"exit/{v}/{site}/{sts[0]['op']}/iter{min(sts[0]['max_iter'], 4)}{'+' if sts[0]['max_iter'] > 4 else ''}"
     if len(sts) == 1:
         s = sts[0]
         if s["max_iter"] >= 100:
@@ -857,6 +1061,7 @@ def run(ctx, out, replay=None):
     quick = ctx.quick()
     n_single, n_tie, n_big, n_long, n_hist = (52, 4, 3, 1, 44) if quick else (700, 40, 24, 4, 500)
     n_longo = 24 if quick else 120
+    n_exit = 24 if quick else 240
     out.rule = ("dies k/4 (25% decimal k/10), 1-7 modules mixing soft / hard / fixed (rectangles in separate die cells) / "
                 "terminal with, without and with fixed centre, in any order; centres inside, on the border, in the corners, "
                 "at the die centre, coincident, 12% all on one vertical/horizontal line; 20% equal areas; names M0.. or "
@@ -869,6 +1074,15 @@ def run(ctx, out, replay=None):
                 "force_algorithm), plus TIES (two discs tangent from outside / inside, chord through a centre 3-4-5, "
                 "centre on the other border, concentric; areas pi r^2; 0-2 iterations) and MANY modules (9-11, 15-17, "
                 "32-33: names M1/M10/M11). "
+                "EXITS (own generator): a movable module driven out of the die in the LAST iteration, through each of the four "
+                "corners (both coordinates overshoot in the same step; 3 in 4) or one of the four borders: pull = zero-area "
+                "terminals / small soft modules tied by nets of weight 10..1000 to a fixed terminal exactly on the corner, "
+                "beside it on a border, on both borders next to it, or to a movable terminal / module there, started at the "
+                "distance a fully pulled module covers in max_iter-1 .. max_iter iterations, along 3-4-5-like directions; "
+                "push = 2-3 big soft modules a small fraction of the last step apart next to the corner, several times "
+                "further from the borders than from each other; square, long and tall dies; max_iter 1, 2, 3 (a few 4, 5, "
+                "8), kappa also 0.01 and 10; 1 in 12 force_algorithm, 1 in 7 the same call twice; coverage.steps_past_the_die "
+                "counts the runs whose last iteration really steps past two borders. "
                 "HISTORIES on one Die/Netlist object graph (about 40% of the cases): prep (create_squares | "
                 "create_initial_allocation | deepcopy | new Die on the same netlist, maybe a centre written by the caller, "
                 "then a call), again (a call, 0-2 caller steps, a second call - 55% with the very same arguments - maybe a "
@@ -892,6 +1106,9 @@ def run(ctx, out, replay=None):
     rng_o = random.Random(f"C13-long-{ctx.seed}")
     iters_o = LONG_QUICK if quick else LONG_ITERS + [255, 256, 257, 1000]
     light += [long_oracle_case(rng_o, k, iters_o, twice=not quick) for k in range(n_longo)]
+    # modules driven out of the die in the last iteration (through the corners / the borders): its own generator too
+    rng_e = random.Random(f"C13-exit-{ctx.seed}")
+    light += [gen_exit_case(rng_e, k) for k in range(n_exit)]
     heavy = [gen_hist_case(rng, ["prep", "again", "again", "walk"][i % 4]) for i in range(n_hist)]
     # interleaved, so that every Coq shard gets the same mix of cheap and expensive cases
     cases, a, b = list(first), 0, 0
@@ -914,3 +1131,9 @@ def run(ctx, out, replay=None):
                 "only-centres, determinism (deep copy + rebuilt twin) and the argmin clause are checked by the direct "
                 "oracle, the candidates recomputed with the public layout function at the SAME max_iter on fresh dies"}
     out.extra["implementation_runs"] = dict(STATS)
+    out.extra["steps_past_the_die"] = {
+        "columns": ["layout runs (13 per force_algorithm call)", "runs whose LAST iteration steps past two borders at once "
+                    "(through a corner)", "runs whose last iteration steps past one border", "runs with a corner step in any iteration"],
+        "per_stream": {k: list(v) for k, v in sorted(EXITS.items())},
+        "note": "recomputed from the recorded (t, pos, disp, norm) of the implementation, before clamping; evidence that the "
+                "generators reach the double clamp of the move step, not an oracle"}
